@@ -79,6 +79,43 @@ pub fn generate_c04(tier: &str, seed: u64) -> Vec<String> {
         }
         gen_full_reads(&mut rng, &cfg, &mut out, "c04");
     }
+    // (own stream) partial encoding, unsharded chains: a region written with data and then written back to the fill value makes
+    // the chunk all fill again - its key must disappear and it must read as fill (the default partial encoders decide this)
+    {
+        let mut r3 = Rng::new(seed ^ 0xC04_B7);
+        let dts = dtypes();
+        for k in 0..(if thorough { 200 } else { 24 }) {
+            let dt = dts.iter().filter(|d| d.es.is_some()).nth(r3.below(10) as usize).unwrap().clone();
+            let es = dt.es.unwrap();
+            let fill = r3.pick(&dt.fills).clone();
+            let bytes = if es == 1 { "{\"name\":\"bytes\"}".to_string() } else { format!("{{\"name\":\"bytes\",\"configuration\":{{\"endian\":\"{}\"}}}}", if k % 2 == 0 { "little" } else { "big" }) };
+            let (json, desc) = match k % 4 {
+                0 => (format!("[{}]", bytes), "bytes".to_string()),
+                1 => (format!("[{},{{\"name\":\"gzip\",\"configuration\":{{\"level\":1}}}}]", bytes), "bytes|gzip".to_string()),
+                2 => (format!("[{{\"name\":\"transpose\",\"configuration\":{{\"order\":[1,0]}}}},{}]", bytes), "transpose10|bytes".to_string()),
+                _ => (format!("[{},{{\"name\":\"crc32c\"}}]", bytes), "bytes|crc32c".to_string()),
+            };
+            let cfg = Cfg { dtype: dt.clone(), fill: fill.clone(), shape: vec![4, 3], grid: vec![(true, vec![2]), (true, vec![3])], regular_impl: true,
+                keys: ("default".into(), "/".into()), codecs_json: json, chain_desc: desc, sharded: false, path: "/bf".into(), eff_inner: None };
+            out.push(cfg.cfg_line("c04", "memory", false, true, ""));
+            let nonfill = |r: &mut Rng| { let mut e = gen_elem(r, &cfg); if e == cfg.fill.1 { e[0] ^= 1; } e };
+            for c in ["0,0", "1,0"] {
+                let d: Vec<Vec<u8>> = (0..2).map(|_| nonfill(&mut r3)).collect();
+                out.push(format!("c04 op store_chunk_subset c={} r=0,1+1,2 data={}", c, show_elems(&d)));
+                out.push("c04 op keys".into());
+                out.push(format!("c04 op store_chunk_subset c={} r=0,1+1,2 data={}", c, show_elems(&vec![cfg.fill.1.clone(); 2])));
+                out.push("c04 op keys".into());
+                out.push(format!("c04 op retrieve_chunk c={}", c));
+            }
+            // the same through an array-subset write that covers parts of both chunks
+            let d: Vec<Vec<u8>> = (0..6).map(|_| nonfill(&mut r3)).collect();
+            out.push(format!("c04 op store_array_subset r=1,0+2,3 data={}", show_elems(&d)));
+            out.push("c04 op keys".into());
+            out.push(format!("c04 op store_array_subset r=1,0+2,3 data={}", show_elems(&vec![cfg.fill.1.clone(); 6])));
+            out.push("c04 op keys".into());
+            out.push("c04 op retrieve_array_subset r=0,0+4,3".into());
+        }
+    }
     // a value-mapping array->array codec (the ENCODED fill value differs from the fill value), partial encoding: chunks made
     // entirely of the value whose encoding is the fill value, and of the encoded fill value itself, are NOT fill chunks
     { let mut r2 = Rng::new(seed ^ 0xC04_F5); crate::c05::value_mapping_family(&mut r2, &mut out, "c04"); }
